@@ -1168,6 +1168,64 @@ pub mod packed {
     }
 }
 
+// ---- `as_uint` on the wide unsigned-integer forms (64 and 128 bits) with every bit in use. The simulated peer's
+// tokens stop at 64 bits and neither `serde_json::Value` nor ron 0.8 carries a `u128` above `u64::MAX`, so these go
+// through JSON text, read back from a string or from a simulated reader.
+pub mod wide {
+    use crate::io::{IoPlan, SimReader};
+    use palette::cast::{self, Packed};
+    use palette::rgb::channels;
+    use palette::SrgbLuma;
+
+    pub struct WideDesc {
+        pub name: &'static str,
+        pub bits: u32,
+        /// (JSON text the helper wrote, the decimal digits of what `cast::into_uint` gives, the integer that
+        /// `cast::into_uint` gives for the value read back)
+        pub round: fn(u128, Option<&IoPlan>) -> Result<(String, String, u128), String>,
+    }
+
+    macro_rules! wide_case {
+        ($id:ident, $name:literal, $bits:literal, $ty:ty, $uint:ty) => {
+            pub static $id: WideDesc = WideDesc {
+                name: $name,
+                bits: $bits,
+                round: |v, read| {
+                    let u = v as $uint;
+                    let x: $ty = cast::from_uint(u);
+                    let mut out = Vec::new();
+                    palette::serde::serialize_as_uint(&x, &mut serde_json::Serializer::new(&mut out)).map_err(|e| format!("serialize: {e}"))?;
+                    let text = String::from_utf8(out).map_err(|e| e.to_string())?;
+                    let back: $ty = match read {
+                        Some(plan) => {
+                            let mut r = SimReader::new(text.as_bytes(), plan);
+                            let mut de = serde_json::Deserializer::from_reader(&mut r);
+                            palette::serde::deserialize_as_uint(&mut de).map_err(|e| format!("{text} (from a reader) -> {e}"))?
+                        }
+                        None => {
+                            let mut de = serde_json::Deserializer::from_str(&text);
+                            let b = palette::serde::deserialize_as_uint(&mut de).map_err(|e| format!("{text} -> {e}"))?;
+                            de.end().map_err(|e| format!("{text} -> {e}"))?;
+                            b
+                        }
+                    };
+                    let x2: $ty = cast::from_uint(u);
+                    Ok((text, format!("{}", cast::into_uint(x2)), cast::into_uint(back) as u128))
+                },
+            };
+        };
+    }
+    wide_case!(LUMA128, "Luma<u128>", 128, SrgbLuma<u128>, u128);
+    wide_case!(RGBA128, "Packed<Rgba, u128>", 128, Packed<channels::Rgba, u128>, u128);
+    wide_case!(ABGR128, "Packed<Abgr, u128>", 128, Packed<channels::Abgr, u128>, u128);
+    wide_case!(LUMA64, "Luma<u64>", 64, SrgbLuma<u64>, u64);
+    wide_case!(ARGB64, "Packed<Argb, u64>", 64, Packed<channels::Argb, u64>, u64);
+
+    pub fn all() -> Vec<&'static WideDesc> {
+        vec![&LUMA128, &RGBA128, &ABGR128, &LUMA64, &ARGB64]
+    }
+}
+
 // ---- the helpers the way users reach them: as `#[serde(with = ..)]` / `deserialize_with` attributes
 pub mod attrs {
     use palette::rgb::{PackedArgb, PackedRgba};
